@@ -504,7 +504,9 @@ impl<'a> ByteReader for ReadAdapter<'a> {
         // this will return an error if we hit EOF first
         self.buffer_at_least(len)?;
 
-        Ok(&self.buffer()[0..len])
+        let start = self.pos;
+        self.pos += len;
+        Ok(&self.buf[start..start + len])
     }
 
     #[inline]
